@@ -1456,3 +1456,168 @@ def fq2_inv_symbolic_modulus(rep, tier):
                 _eq_coeffs(rep, R, prod, [1, 0], "%s FQ2, symbolic modulus u^2+m1*u+m0, zeroed %s: x * inv(x) = 1" % (impl, zeroed), rp, path[-3:])
                 _eq_coeffs(rep, R, q, y, "%s FQ2, symbolic modulus, zeroed %s: (y / x) * x = y" % (impl, zeroed), rp, path[-3:])
         require(rep, n_paths >= 2, "%s FQ2 symbolic modulus: generic and zero paths explored" % impl, None, rp)
+
+
+# ---------------------------------------------------------------------------
+# C08.d'  FQP.inv: one arbitrary iteration of the extended-Euclid loop on DENSE symbolic polynomials (all degree patterns)
+
+def _check_fqp_inv_loop(rep, impl, curve, deg_, K, M, patterns):
+    """State of the loop: lists lm, hm, low, high of length d+1.  For every degree pattern (dl = deg low >= 1, dh = deg high)
+    with dense symbolic coefficients (deg lm <= d - dh, deg hm <= d - dl: the degree invariant J), one execution of the REAL loop
+    body is proved to satisfy, for the quotient r the code itself computed:
+       nm = hm - lm*r   and   new = high - low*r   (as polynomials, nothing lost by the truncated double loop),
+       J again, and progress: deg new < dh when dl <= dh; a pure swap when dl > dh.
+    From these: lm*x == low, hm*x == high (mod the modulus polynomial) is an invariant (Bezout step, valid for ANY quotient r),
+    and at exit (deg low = 0) the result lm / low[0] is the inverse."""
+    p = K.field_modulus
+    d = deg_
+    tag = "%s FQ%d %s inv loop" % (impl, d, curve)
+    rp = {"kind": "c08_fqp_inv", "args": {"impl": impl, "curve": curve, "deg": d, "support": list(range(d))}}
+    inst = K([1] + [0] * (d - 1))
+    rep.encoded(K.inv)
+
+    def wrap(R, x):
+        """coefficient as the class stores it: reference keeps FQ objects, optimized keeps ints."""
+        if impl == "ref":
+            return inst.FQP_corresponding_FQ_class(x)
+        return x
+
+    for (dl, dh) in patterns:
+        rec = {}
+
+        def fn(R, dl=dl, dh=dh):
+            lm = [wrap(R, R.atom("lm%d" % i)) if i <= d - dh else 0 for i in range(d + 1)]
+            hm = [wrap(R, R.atom("hm%d" % i)) if i <= d - dl else 0 for i in range(d + 1)]
+            low = [wrap(R, R.atom("lo%d" % i)) if i <= dl else 0 for i in range(d + 1)]
+            high = [wrap(R, R.atom("hi%d" % i)) if i <= dh else 0 for i in range(d + 1)]
+            R.declare_nonzero(R.atom("lo%d" % dl))
+            R.declare_nonzero(R.atom("hi%d" % dh))
+            qs = []
+            if impl == "ref":
+                real_div = M.poly_rounded_div
+
+                def div(a, b):
+                    r_ = real_div(a, b)
+                    qs.append(list(r_))
+                    return r_
+                ctxm = world.patched(M, prime_field_inv=inv_stub_ring, poly_rounded_div=div)
+                me = inst
+            else:
+                real_div = K.optimized_poly_rounded_div
+
+                class Rec(K):
+                    def optimized_poly_rounded_div(self, a, b):
+                        r_ = real_div(self, a, b)
+                        qs.append(list(r_))
+                        return r_
+                me = Rec([1] + [0] * (d - 1))
+                ctxm = world.patched(M, prime_field_inv=inv_stub_ring)
+            with ctxm:
+                cut = loopcut.cut(K.inv, rewriter=lambda m_: world._Rewriter().visit(m_))
+                st = {"self": me, "lm": list(lm), "hm": list(hm), "low": list(low), "high": list(high)}
+                c = cut["cond"](**st)
+                if not c:
+                    raise core.Unsupported("loop condition false although deg(low) = %d" % dl)
+                kind, st2 = cut["body"](**st)
+            if kind != "state":
+                raise core.Unsupported("loop body returned")
+            return (lm, hm, low, high), st2, qs
+
+        def val(x):
+            x = x.n if hasattr(x, "n") else x
+            return x
+
+        for pth, R in ring.run_paths(fn, lambda: Ring(p, policy=lambda live: "generic")):
+            rep.paths += 1
+            path = "dl=%d dh=%d" % (dl, dh)
+            if pth.kind != "ret":
+                rep.fail("%s (%s) raised %r" % (tag, path, pth.value), rp, detail=str(lits_summary(R))[-300:])
+                continue
+            (lm, hm, low, high), st2, qs = pth.value
+            if len(qs) != 1:
+                rep.fail("%s (%s): the quotient is not computed exactly once" % (tag, path), rp)
+                continue
+            r = [R.lift(val(x)) for x in qs[0]] + [R.const(0)] * (d + 1)
+            L = lambda lst: [R.lift(val(x)) for x in lst]
+            lm_, hm_, low_, high_ = L(lm), L(hm), L(low), L(high)
+            nm, new, lm2, low2, hm2, high2 = L(st2["nm"]), L(st2["new"]), L(st2["lm"]), L(st2["low"]), L(st2["hm"]), L(st2["high"])
+            ok = len(nm) == d + 1 and len(new) == d + 1
+
+            def conv(a, b, k):
+                acc = R.const(0)
+                for i in range(0, k + 1):
+                    if i <= d and k - i <= d:
+                        acc = acc + a[i] * b[k - i]
+                return acc
+            okA = all(R.prove_equal(nm[k], hm_[k] - conv(lm_, r, k)) == "zero" for k in range(d + 1))
+            okB = all(R.prove_equal(new[k], high_[k] - conv(low_, r, k)) == "zero" for k in range(d + 1))
+            lostA = all(R.prove_zero(conv(lm_, r, k)) == "zero" for k in range(d + 1, 2 * d + 1))
+            lostB = all(R.prove_zero(conv(low_, r, k)) == "zero" for k in range(d + 1, 2 * d + 1))
+            require(rep, ok and okA and lostA, "%s (%s): nm = hm - lm*r for the computed quotient r, nothing truncated" % (tag, path), path, rp)
+            require(rep, ok and okB and lostB, "%s (%s): new = high - low*r, nothing truncated" % (tag, path), path, rp)
+            okS = all(R.prove_equal(a, b) == "zero" for a, b in zip(lm2 + low2 + hm2 + high2, nm + new + lm_ + low_))
+            require(rep, okS, "%s (%s): state update (lm, low, hm, high) := (nm, new, lm, low)" % (tag, path), path, rp)
+            okJ = all(R.prove_zero(nm[k]) == "zero" for k in range(d - dl + 1, d + 1))
+            require(rep, okJ, "%s (%s): degree invariant deg(lm') <= d - deg(high') preserved" % (tag, path), path, rp)
+            if dl <= dh:
+                okD = all(R.prove_zero(new[k]) == "zero" for k in range(dh, d + 1))
+                require(rep, okD, "%s (%s): progress -- the leading term cancels, deg(new) < deg(high)" % (tag, path), path, rp)
+            else:
+                okD = all(R.prove_equal(new[k], high_[k]) == "zero" for k in range(d + 1)) and all(R.prove_equal(nm[k], hm_[k]) == "zero" for k in range(d + 1))
+                require(rep, okD, "%s (%s): deg(low) > deg(high): zero quotient, the step only swaps the pairs" % (tag, path), path, rp)
+
+    # prologue and epilogue
+    def fn_io(R):
+        a = [R.atom("a%d" % i) for i in range(d)]
+        with world.patched(M, prime_field_inv=inv_stub_ring):
+            cut = loopcut.cut(K.inv, rewriter=lambda m_: world._Rewriter().visit(m_))
+            x = K(a)
+            kind, st = cut["init"](x)
+            c0 = R.atom("c0")
+            R.declare_nonzero(c0)
+            lm = [wrap(R, R.atom("lm%d" % i)) for i in range(d)] + [0]
+            res = cut["tail"](**{"self": x, "lm": lm, "hm": [0] * (d + 1), "low": [wrap(R, c0)] + [0] * d, "high": [0] * (d + 1)})
+        return a, st, lm, c0, res
+    for pth, R in ring.run_paths(fn_io, lambda: Ring(p, policy=lambda live: "generic")):
+        rep.paths += 1
+        if pth.kind != "ret":
+            rep.fail("%s prologue/epilogue raised %r" % (tag, pth.value), rp)
+            continue
+        a, st, lm, c0, res = pth.value
+        mc = list(K.FQ2_MODULUS_COEFFS if d == 2 else K.FQ12_MODULUS_COEFFS)
+        v = lambda x: R.lift(x.n if hasattr(x, "n") else x)
+        ok = ([int(v(x).comp.get(0, z3.IntVal(0)).as_long()) if not isinstance(x, Res) else None for x in []] == [])
+        ok &= all(R.prove_equal(v(x), y) == "zero" for x, y in zip(st["lm"], [1] + [0] * d))
+        ok &= all(R.prove_equal(v(x), 0) == "zero" for x in st["hm"])
+        ok &= all(R.prove_equal(v(x), y) == "zero" for x, y in zip(st["low"], a + [0]))
+        ok &= all(R.prove_equal(v(x), y) == "zero" for x, y in zip(st["high"], mc + [1]))
+        require(rep, ok, "%s: prologue establishes lm = 1, hm = 0, low = x, high = modulus polynomial (Bezout invariant and J hold)" % tag, None, rp)
+        okE = all(R.prove_equal(R.lift(c) * c0, v(l)) == "zero" for c, l in zip(cf(res), lm[:d]))
+        require(rep, okE and type(res) is K, "%s: at exit the result is lm / low[0] (so result * x == 1 by the invariant lm*x == low[0])" % tag, None, rp)
+    rep.trust("Bezout bookkeeping: nm = hm - lm*r and new = high - low*r preserve lm*x == low, hm*x == high (mod f) for ANY polynomial r; "
+              "gcd(x, f) = 1 for x != 0 and f irreducible, so the last non-zero remainder is a non-zero constant; termination of the remainder sequence")
+
+
+def _mk_inv_loop(impl, curve, deg_):
+    def f(rep, tier):
+        d = deg_
+        if d == 2:
+            pats = [(dl, dh) for dl in (1, 2) for dh in (1, 2)]
+        elif tier == "quick":
+            pats = [(dl, 12) for dl in range(1, 13)] + [(dl, dl + 1) for dl in range(1, 12)] + [(5, 3), (11, 6), (3, 9), (2, 7)]
+            pats = sorted(set(pats))
+        else:
+            pats = [(dl, dh) for dl in range(1, 13) for dh in range(1, 13)]
+        for i, c, K, M in fqp_classes(d):
+            if i == impl and c == curve:
+                _check_fqp_inv_loop(rep, i, c, d, K, M, pats)
+    return f
+
+
+for _impl in ("ref", "opt"):
+    for _curve in CURVES:
+        for _deg in (2, 12):
+            obligation("C08", "fqp_inv_loop_step_%s_%s_fq%d" % (_impl, _curve, _deg), timeout=1500,
+                       bound="one arbitrary iteration of FQP.inv's Euclid loop on DENSE symbolic polynomials at the real prime, for degree patterns (deg low, deg high): "
+                             "all 4 (FQ2); 26 patterns (quick) / all 144 (thorough) for FQ12; unbounded number of iterations by induction")(
+                _mk_inv_loop(_impl, _curve, _deg))
